@@ -150,14 +150,14 @@ func (e *c02Env) checkDag(what func() string, roots ...*Cell) {
 	}
 	for i, c := range refReachable(roots...) {
 		i := i
-		e.checkCell(c, rh, warm, true, func() string { return fmt.Sprintf("%s cell #%d of {%s}", what(), i, refDump(roots...)) })
+		e.checkCell(c, rh, warm, true, func() string { return fmt.Sprintf("%s cell #%d of {%s}", what(), i, refDumpLazy(roots...)) })
 	}
 }
 
 func TestVerifStandin_C02_RefHasher(t *testing.T) {
 	thorough := os.Getenv("VERIF_TIER") == "thorough"
 	rng := rand.New(rand.NewSource(refSeed()))
-	e := &c02Env{rep: &refReporter{t: t, max: 12}, distinct: map[[32]byte]bool{}}
+	e := &c02Env{rep: &refReporter{t: t, max: 3}, distinct: map[[32]byte]bool{}}
 	defer func() {
 		e.rep.done()
 		fmt.Printf("STANDIN-STAT name=c02_refhasher cases=%d distinct=%d\n", e.cases, len(e.distinct))
@@ -370,7 +370,7 @@ func c02Exotic(e *c02Env, thorough bool) {
 			}
 			if !bytes.Equal(io.Hash(l), ip.Hash(l)) || io.Depth(l) != ip.Depth(l) {
 				e.rep.errorf("C: %s: library level-%d hash/depth of the pruned tree %x/%d differs from the original %x/%d; original {%s} pruned {%s}",
-					what, l, ip.Hash(l), ip.Depth(l), io.Hash(l), io.Depth(l), refDump(orig), refDump(pr))
+					what, l, ip.Hash(l), ip.Depth(l), io.Hash(l), io.Depth(l), refDumpLazy(orig), refDumpLazy(pr))
 			}
 		}
 	}
@@ -424,7 +424,7 @@ func c02Exotic(e *c02Env, thorough bool) {
 				for opt := 0; opt < 8; opt += 7 {
 					b, err := root.ToBocCustom(opt&1 != 0, opt&2 != 0, opt&4 != 0, 0)
 					if err != nil {
-						e.rep.errorf("C: %s root %d: ToBocCustom: %v {%s}", tag, k, err, refDump(root))
+						e.rep.errorf("C: %s root %d: ToBocCustom: %v {%s}", tag, k, err, refDumpLazy(root))
 						continue
 					}
 					parsed, err := DeserializeBoc(b)
@@ -522,7 +522,7 @@ func c02Prover(e *c02Env, sp *refBuildSpec) {
 				e.rep.errorf("%s: proof root is not a Merkle proof cell: %x", what(), b)
 				return
 			}
-			data := refPad(refCellBits(root))
+			data := refData(root)
 			wantData := append([]byte{3}, orig.hash[:]...)
 			wantData = append(wantData, byte(orig.depth>>8), byte(orig.depth))
 			if !bytes.Equal(data, wantData) {
@@ -597,7 +597,7 @@ func c02Testdata(e *c02Env, t *testing.T, thorough bool) {
 				deep = true
 			}
 			e.checkCell(c, rh, warm, deep, func() string {
-				return fmt.Sprintf("E: %s cell #%d (preorder) type=%d mask=%d bits=%d data=%x", nb.name, i, c.cellType, c.mask, c.bits.len, refPad(refCellBits(c)))
+				return fmt.Sprintf("E: %s cell #%d (preorder) type=%d mask=%d bits=%d data=%x", nb.name, i, c.cellType, c.mask, c.bits.len, refData(c))
 			})
 			// the library's mask field (taken from d1 by the parser) must be the mask the specification prescribes
 			if m, err := rh.mask(c); err == nil && int(c.mask) != m {
@@ -605,7 +605,7 @@ func c02Testdata(e *c02Env, t *testing.T, thorough bool) {
 			}
 			// oracle sanity on real data: Merkle cells commit to the level-0 hash/depth of their children
 			if c.cellType == MerkleProofCell || c.cellType == MerkleUpdateCell {
-				data := refPad(refCellBits(c))
+				data := refData(c)
 				kids := refKids(c)
 				for k, kid := range kids {
 					v, err := rh.hashDepth(kid, 0)
